@@ -41,12 +41,16 @@ class C11(framework.PropertyCheck):
                     return 'a'
                 a, b, c = operand(), operand(), operand()
                 k = rng.choice(['at', 'scope', 'group', 'bit', 'slice', 'quote', 'qq', 'unq', 'unqs', 'brackets'])
-                s = rng.choice(['a', 'foo', 'sig.x', 'v<1>', 'iff'])     # operator names are not signal names: ~if keeps the symbol
-                pair = {'at': (f'{a}@{b}', f'(reval {a} {b})'), 'scope': (f'~{s}', f'(resolve-scope {s})'), 'group': (f'#{s}x', f'(resolve-group {s}x)'),
+                s = rng.choice(['a', 'foo', 'sig.x', 'v<1>', 'iff', 'T', 'F', 'tr', 'Fa'])     # operator names are not signal names: ~if keeps the symbol
+                pair = {'at': (f'{a}@{b}', f'(reval {a} {b})'), 'scope': (f'~{s}', f'(resolve-scope {s})'), 'group': ((f'#{s}x', f'(resolve-group {s}x)') if rng.random() < 0.5 or s in ('tr',) else (f'#{s}', f'(resolve-group {s})')),
                         'bit': (f'{a}[{b}]', f'(slice {a} {b})'), 'slice': (f'{a}[{b} : {c}]', f'(slice {a} {b} {c})'), 'quote': (f"'{a}", f'(quote {a})'),
                         'qq': (f'`{a}', f'(quasiquote {a})'), 'unq': (f'`(x ,{a})', None), 'unqs': (f'`(x ,@{a})', None),
                         'brackets': (f'({a} {b})', f'[{a} {b}]', '{' + f'{a} {b}' + '}')}[k]
                 yield {'k': 'short', 'kind': k, 'texts': [t for t in pair if t is not None]}
+            elif i % 50 == 7:
+                # reading is a function of the text alone: the same text reads the same after it has been evaluated
+                yield {'k': 'reread', 'src': rng.choice(['(when ready (inc n))', '(unless (> n 2) (set! n 5))', '(for/list [i (range 2)] (inc n))',
+                                                         '(cond [(> n 1) 1] [else (dec n)])', '(do (defun f9 [a] (when a 1)) (f9 n))'])}
             elif i % 7 == 3:
                 # values built directly (not obtained by reading): print -> read must give the value back
                 def sval():
@@ -77,6 +81,8 @@ class C11(framework.PropertyCheck):
         return x if k in ('s', 'i') else Symbol(x) if k == 'y' else WList([self.value(e) for e in x])
 
     def steps(self, case):
+        if case['k'] == 'reread':
+            return None
         if case['k'] == 'val':
             from wal.util import wal_str
             v = self.value(case['v'])
@@ -90,6 +96,22 @@ class C11(framework.PropertyCheck):
         return [('read', t) for t in case['texts']]
 
     def oracle(self, case, iobs):
+        if case['k'] == 'reread':
+            from . import impl
+            first = read_one(case['src'])
+            w = impl.fresh()
+            import contextlib
+            import io
+            for t in ('(define n 0)', '(define ready 1)', case['src'], case['src']):
+                try:
+                    with contextlib.redirect_stdout(io.StringIO()), contextlib.redirect_stderr(io.StringIO()):
+                        w.eval_str(t)
+                except BaseException:  # noqa: BLE001
+                    pass
+            again = read_one(case['src'])
+            if again != first:
+                return {'what': 'the same text reads differently after it has been evaluated', 'text': case['src'], 'first': first, 'again': again}
+            return None
         if case['k'] == 'val':
             want = ('ok', wire.canon(self.value(case['v'])))
             if iobs[0][0] != 'ok':
@@ -118,7 +140,7 @@ class C11(framework.PropertyCheck):
         return None
 
     def nontrivial(self, case, iobs):
-        if case['k'] in ('short', 'val'):
+        if case['k'] in ('short', 'val', 'reread'):
             return True
         return iobs is not None and len(iobs) > 1 and iobs[1][0] == 'ok' and iobs[1][1] != case['src']
 
